@@ -43,8 +43,10 @@ type Workload struct {
 	Seed  int64   `json:"seed"`
 	Index int     `json:"index"`
 	Progs [][]SOp `json:"progs"`
-	// SerialiseUpdateDelete: handle updates and deletes never overlap (open finding D6).
-	SerialiseUpdateDelete bool `json:"serialise_update_delete,omitempty"`
+	// SerialiseUpdateDelete: 2 = handle updates never overlap deletes (open finding
+	// D6); 1 = they never overlap conditional deletes (open finding
+	// conditional-delete-not-atomic-vs-handle-update); 0 = nothing is kept apart.
+	SerialiseUpdateDelete int `json:"serialise_update_delete,omitempty"`
 }
 
 // Three subtrees below the root, two letters further down: paths overlap
@@ -171,7 +173,7 @@ type stressRun struct {
 	arrived atomic.Int32
 	hd      *sync.RWMutex // serialises handle updates against deletes while D6 is open
 	hdDel   sync.Mutex
-	avoided atomic.Int64  // overlaps of the two kinds the serialisation prevented
+	avoided atomic.Int64 // overlaps of the two kinds the serialisation prevented
 	logs    [][]HOp
 	panics  []string
 }
@@ -240,7 +242,7 @@ func (r *stressRun) guarded(o *HOp, l *ctree.Leaf) *ctree.Leaf {
 			r.hd.RLock()
 		}
 		defer r.hd.RUnlock()
-	case r.hd != nil && isDelKind(o.Kind):
+	case r.hd != nil && isDelKind(o.Kind) && (r.w.SerialiseUpdateDelete > 1 || o.Kind != "del"):
 		// deletes queue among themselves first (the tree serialises them anyway),
 		// so a failed TryLock means a handle update is in flight
 		r.hdDel.Lock()
@@ -256,16 +258,19 @@ func (r *stressRun) guarded(o *HOp, l *ctree.Leaf) *ctree.Leaf {
 
 var stallFinding = regexp.MustCompile(`^goroutine (\d+) \[([^\],]*)[^\]]*\]:$`)
 
-// lockedWorkers summarises the worker goroutines in a goroutine dump: the
-// frames of every worker that still exists, whether each of them waits for a
-// sync lock, and whether at least one does so inside ctree.
-func lockedWorkers(dump string) (stacks map[string]string, allLocked, inCtree bool) {
+// lockedWorkers summarises the goroutines of a goroutine dump whose stack
+// contains marker: the frames of each, whether every one of them either waits
+// for a sync lock or is parked on a harness channel outside ctree (holding no
+// tree lock: the harness never waits on a channel inside a tree call), and
+// whether at least one waits for a lock inside ctree. If that holds nobody is
+// left who could release a lock: a deadlock, whatever the clock says.
+func lockedWorkers(dump, marker string) (stacks map[string]string, allLocked, inCtree bool) {
 	stacks = map[string]string{}
 	allLocked = true
 	for _, blk := range strings.Split(dump, "\n\n") {
 		lines := strings.Split(strings.TrimSpace(blk), "\n")
 		m := stallFinding.FindStringSubmatch(lines[0])
-		if m == nil || !strings.Contains(blk, "ctreeprop.(*stressRun).worker") {
+		if m == nil || !strings.Contains(blk, marker) {
 			continue
 		}
 		state := m[2]
@@ -279,13 +284,52 @@ func lockedWorkers(dump string) (stacks map[string]string, allLocked, inCtree bo
 			}
 		}
 		stacks[m[1]] = state + "\n" + strings.Join(frames, "\n")
+		ctreeFrame := strings.Contains(blk, "github.com/openconfig/gnmi/ctree.")
 		locked := strings.HasPrefix(state, "sync.RWMutex.") || strings.HasPrefix(state, "sync.Mutex.")
-		allLocked = allLocked && locked
-		if locked && strings.Contains(blk, "github.com/openconfig/gnmi/ctree.") {
+		idle := !ctreeFrame && (strings.HasPrefix(state, "chan receive") || strings.HasPrefix(state, "chan send") || strings.HasPrefix(state, "select"))
+		allLocked = allLocked && (locked || idle)
+		if locked && ctreeFrame {
 			inCtree = true
 		}
 	}
 	return stacks, allLocked && len(stacks) > 0, inCtree
+}
+
+// watched runs f on a goroutine of its own and waits for it. If it has not
+// returned after stall of real time the goroutines whose stacks contain marker
+// are inspected twice, confirm apart: deadlock=true only on the structural
+// verdict of lockedWorkers with identical stacks both times; otherwise stuck
+// describes an inconclusive stall. The wall clock only decides when to look.
+func watched(marker string, stall, confirm time.Duration, f func()) (stuck string, deadlock bool) {
+	done := make(chan struct{})
+	go func() { defer close(done); f() }()
+	timer := time.NewTimer(stall)
+	defer timer.Stop()
+	select {
+	case <-done:
+		return "", false
+	case <-timer.C:
+	}
+	s1, locked1, in1 := lockedWorkers(allStacks(), marker)
+	select {
+	case <-done:
+		return "", false
+	case <-time.After(confirm):
+	}
+	s2, locked2, in2 := lockedWorkers(allStacks(), marker)
+	same := len(s1) == len(s2)
+	for id, st := range s1 {
+		same = same && s2[id] == st
+	}
+	select {
+	case <-done:
+		return "", false
+	default:
+	}
+	if locked1 && locked2 && in1 && in2 && same {
+		return fmt.Sprintf("%d goroutines are all waiting for sync locks inside ctree (or idle outside it), identically in two goroutine dumps %v apart:\n%s", len(s2), confirm, trimDump(s2)), true
+	}
+	return fmt.Sprintf("no return within %v, but not every goroutine is blocked on a lock (allLocked=%v/%v inCtree=%v/%v same=%v)", stall, locked1, locked2, in1, in2, same), false
 }
 
 func allStacks() string {
@@ -300,7 +344,7 @@ func (r *stressRun) run(stall, confirm time.Duration) (h *History, stuck string,
 	r.logs = make([][]HOp, n)
 	r.panics = make([]string, n)
 	r.tr = &ctree.Tree{}
-	if r.w.SerialiseUpdateDelete {
+	if r.w.SerialiseUpdateDelete > 0 {
 		r.hd = &sync.RWMutex{}
 	}
 	// widen the upgrade window now and then (decided by the value being added)
@@ -317,36 +361,8 @@ func (r *stressRun) run(stall, confirm time.Duration) (h *History, stuck string,
 	for g := 0; g < n; g++ {
 		go r.worker(g, &wg)
 	}
-	done := make(chan struct{})
-	go func() { wg.Wait(); close(done) }()
-	timer := time.NewTimer(stall)
-	defer timer.Stop()
-	select {
-	case <-done:
-	case <-timer.C:
-		// The wall clock only decides when to look; the verdict is structural.
-		s1, locked1, in1 := lockedWorkers(allStacks())
-		select {
-		case <-done:
-			s1 = nil
-		case <-time.After(confirm):
-		}
-		if s1 != nil {
-			d2 := allStacks()
-			s2, locked2, in2 := lockedWorkers(d2)
-			same := len(s1) == len(s2)
-			for id, st := range s1 {
-				same = same && s2[id] == st
-			}
-			select {
-			case <-done:
-			default:
-				if locked1 && locked2 && in1 && in2 && same {
-					return &History{Seed: r.w.Seed, Index: r.w.Index, Workers: n}, fmt.Sprintf("%d worker goroutines are all waiting for sync locks inside ctree, identically in two goroutine dumps %v apart:\n%s", len(s2), confirm, trimDump(s2)), true
-				}
-				return &History{Seed: r.w.Seed, Index: r.w.Index, Workers: n}, fmt.Sprintf("workers did not join within %v but are not all blocked on locks (allLocked=%v/%v inCtree=%v/%v same=%v)", stall, locked1, locked2, in1, in2, same), false
-			}
-		}
+	if stuck, deadlock = watched("ctreeprop.(*stressRun).worker", stall, confirm, wg.Wait); stuck != "" {
+		return &History{Seed: r.w.Seed, Index: r.w.Index, Workers: n}, stuck, deadlock
 	}
 	h = &History{Seed: r.w.Seed, Index: r.w.Index, Workers: n}
 	for g := 0; g < n; g++ {
@@ -357,10 +373,15 @@ func (r *stressRun) run(stall, confirm time.Duration) (h *History, stuck string,
 	}
 	sort.SliceStable(h.Ops, func(i, j int) bool { return h.Ops[i].Call < h.Ops[j].Call })
 	fin := HOp{G: n, Kind: "final"}
-	perform(r.tr, &fin, nil, r.now)
+	// a lock leaked by a finished worker would hang the walk: watch it as well
+	if stuck, deadlock = watched("ctreeprop.(*stressRun).finalWalk", stall, confirm, func() { r.finalWalk(&fin) }); stuck != "" {
+		return h, "after all workers had joined the final walk did not return: " + stuck, deadlock
+	}
 	h.Ops = append(h.Ops, fin)
 	return h, "", false
 }
+
+func (r *stressRun) finalWalk(o *HOp) { perform(r.tr, o, nil, r.now) }
 
 func trimDump(stacks map[string]string) string {
 	var ids []string
